@@ -114,8 +114,37 @@ def rankine_case(draw):
     return {"kind": "refuse", "u": G.atom("", "degR"), "v": G.atom("", "K", draw(st.sampled_from([2, -2, 3])), 1), "x": x}
 
 
+@st.composite
+def typed_case(draw):
+    """the magnitude handed over as a numpy array of a narrower dtype, or as a Decimal: it is the number that counts,
+    conversions are carried out in double precision (Decimal: exactly)"""
+    dtype = draw(st.sampled_from(["float32", "float16", "int64", "int32", "decimal", "decimal"]))
+    recip = draw(st.integers(0, 2)) == 0
+    dim = draw(st.sampled_from(RECIP_DIMS if recip else G.DIMS))
+    u = draw(G.expr_of_dim(dim))
+    v = draw(G.expr_of_dim(G.neg(dim) if recip else dim))
+    if dtype == "decimal":
+        x = draw(st.sampled_from(["2.5", "40", "0.125", "3", "1000"]))
+    else:
+        pool = [1.0, 2.0, 0.5, 100.0, 250.0, 3.0, 12.0] if dtype.startswith("float") else [1, 2, 100, 250, 3, 7]
+        x = draw(st.lists(st.sampled_from(pool), min_size=1, max_size=3))
+    return {"kind": "typed", "u": u, "v": v, "x": x, "dtype": dtype, "recip": recip}
+
+
+@st.composite
+def to_none_case(draw):
+    """None as target is 'no unit': a dimensionless quantity is converted to the bare number, anything else is refused"""
+    if draw(st.booleans()):
+        u = draw(G.expr_of_dim(R.ZERO))
+        return {"kind": "to_none", "u": u, "x": draw(G.magnitudes(lo_exp=-30, hi_exp=30)), "ok": True}
+    u = draw(G.expr_of_dim(draw(st.sampled_from([d for d in G.NONZERO_DIMS if d != G.RAD_DIM]))))
+    return {"kind": "to_none", "u": u, "x": draw(G.magnitudes(lo_exp=-30, hi_exp=30)), "ok": False}
+
+
 def strategies(tier):
     return {
+        "typed_input": (typed_case(), 300, 6000),
+        "to_none": (to_none_case(), 200, 4000),
         "rankine": (rankine_case(), 200, 4000),
         "convert": (convert_case(), 2500, 60000),
         "recip": (recip_case(), 600, 15000),
@@ -329,10 +358,81 @@ def check_bare_refuse(case, v):
     v.label("bare_refuse")
 
 
+def check_typed(case, v):
+    from decimal import Decimal
+    from scinumtools.units import Quantity
+    u, vv = case["u"], case["v"]
+    tu, tv = R.render(u), R.render(vv)
+    fs = _factors(u, vv)
+    if fs is None:
+        return v.discard("float-range")
+    fu, fv = fs
+    if case["dtype"] == "decimal":
+        x = Decimal(case["x"])
+        xa = np.asarray(float(x))
+        shown = f"Decimal({case['x']!r})"
+    else:
+        x = np.array(case["x"], dtype=case["dtype"])
+        xa = x.astype(float)
+        shown = f"np.array({case['x']!r}, dtype={case['dtype']})"
+    exp = 1.0 / (xa * fu) / fv if case["recip"] else xa * fu / fv
+    if not np.all(np.isfinite(exp)) or np.any(np.abs(exp) > 1e250) or np.any((np.abs(exp) < 1e-250) & (exp != 0)):
+        return v.discard("float-range")
+    for name in ("value", "to"):
+        try:
+            q = Quantity(x, tu)
+            got = q.value(tv) if name == "value" else q.to(tv).value()
+            got = np.asarray(got, dtype=float) if not isinstance(got, Decimal) else np.asarray(float(got))
+        except Exception as e:
+            return v.fail("convert-raised", f"Quantity({shown},{tu!r}).{name}({tv!r}) raised {e!r}")
+        if not _close(got, exp):
+            return v.fail("value", f"Quantity({shown},{tu!r}).{name}({tv!r}) = {got!r}, expected {exp!r}")
+    v.nt(True)
+    v.label("typed_" + case["dtype"], "recip" if case["recip"] else "linear")
+
+
+def check_to_none(case, v):
+    from scinumtools.units import Quantity
+    tu = R.render(case["u"])
+    fs = _factors(case["u"])
+    if fs is None:
+        return v.discard("float-range")
+    xa = _arr(case["x"])
+    if not _range_ok(xa, fs[0]):
+        return v.discard("float-range")
+    q = Quantity(case["x"], tu)
+    before_v, before_u = np.array(q.value(), dtype=float, copy=True), q.units()
+    if case["ok"]:
+        try:
+            r = Quantity(case["x"], tu).to(None)
+        except Exception as e:
+            return v.fail("convert-raised", f"Quantity({case['x']!r},{tu!r}).to(None) raised {e!r}")
+        # whatever dimensionless unit is left on the result, the number it stands for is x*F(u)
+        base = _arr(r.value()) * (R.factor_of_expression(r.units()) if r.units() else 1.0)
+        if not _close(base, xa * fs[0]):
+            return v.fail("value", f"Quantity({case['x']!r},{tu!r}).to(None) = {r.value()!r} {r.units()!r}, expected the "
+                                   f"number {xa * fs[0]!r}")
+        if r.units() is not None:
+            return v.fail("to-units", f"Quantity({case['x']!r},{tu!r}).to(None) still carries the unit {r.units()!r}")
+        v.nt(True)
+        return v.label("to_none_dimensionless")
+    try:
+        r = q.to(None)
+    except Exception:
+        pass
+    else:
+        return v.fail("refuse-accepted", f"Quantity({case['x']!r},{tu!r}).to(None) returned {r!r} although {tu} has a dimension")
+    after = np.array(q.value(), dtype=float)
+    if q.units() != before_u or not np.array_equal(after, before_v, equal_nan=True):
+        return v.fail("refuse-mutated", f"after refused to(None): {q.value()!r} {q.units()!r}")
+    v.nt(True)
+    v.label("to_none_refused")
+
+
 def check(case):
     v = Verdict()
     try:
-        {"bare_refuse": check_bare_refuse, "convert": check_convert, "recip": check_recip, "rad": check_rad, "refuse": check_refuse}[case["kind"]](case, v)
+        {"bare_refuse": check_bare_refuse, "convert": check_convert, "recip": check_recip, "rad": check_rad, "refuse": check_refuse, "typed": check_typed, "to_none": check_to_none}[case["kind"]](case, v)
     finally:
         if not R.tables_pristine():
             R.restore_tables()
